@@ -203,6 +203,11 @@ func (fr *Frame) contractCall(st *State, fc *FuncContract, key string, args []Va
 		}
 	}
 	pkg := u.curPkg
+	if fc.Pkg != "" {
+		if tp, ok := u.P.TPkgs[fc.Pkg]; ok {
+			pkg = tp
+		}
+	}
 	pre := st.clone()
 	env := &Env{u: u, vars: vars, st: pre, old: pre, pkg: pkg}
 	short := key
@@ -216,7 +221,19 @@ func (fr *Frame) contractCall(st *State, fc *FuncContract, key string, args []Va
 	}
 	// caller-side assertions about this call
 	for _, ca := range fr.root.callAsserts(key, ord) {
-		t, rec, err := env.EvalClause(ca.Clause.Expr)
+		// names: the callee's parameters (as in its contract) plus the caller's own; old() is the caller's entry state
+		cv := map[string]Val{}
+		for k, v := range fr.root.cvars {
+			cv[k] = v
+		}
+		for k, v := range vars {
+			cv["$"+k] = v
+			if _, clash := cv[k]; !clash {
+				cv[k] = v
+			}
+		}
+		cenv := &Env{u: u, vars: cv, st: pre, old: fr.root.entry, pkg: pkg}
+		t, rec, err := cenv.EvalClause(ca.Clause.Expr)
 		if err != nil {
 			u.unsupported("%s: at call %s: %v", fr.oblFn, key, err)
 			continue
@@ -235,6 +252,21 @@ func (fr *Frame) contractCall(st *State, fc *FuncContract, key string, args []Va
 	for i, loc := range fc.Assigns {
 		if id, ok := loc.(EIdent); ok && id.Name == "*" {
 			u.havocAll(st)
+			continue
+		}
+		if pc, ok := loc.(ECall); ok && pc.Fun == "pointee" && len(pc.Args) == 1 {
+			// pointee(v): whatever the pointer inside interface value v points to, by the static type at the call site
+			v, err := env.EvalVal(pc.Args[0])
+			if err != nil || v.DynTyp == nil {
+				u.notes = append(u.notes, fmt.Sprintf("%s: pointee() of %s at %s has no static type: everything havocked", fr.oblFn, key, fr.pos(pos)))
+				u.havocAll(st)
+				continue
+			}
+			if pt, ok := v.DynTyp.Underlying().(*types.Pointer); ok {
+				addr := "(val " + v.T + ")"
+				fr.frameCheck(st, addr, pos)
+				u.havocAt(st, addr, pt.Elem())
+			}
 			continue
 		}
 		a, err := func() (v Val, err error) {
@@ -268,6 +300,16 @@ func (fr *Frame) contractCall(st *State, fc *FuncContract, key string, args []Va
 		v, err := env.EvalVal(el)
 		if err != nil {
 			u.unsupported("%s: elems of %s: %v", fr.oblFn, key, err)
+			continue
+		}
+		if mt, ok := v.Typ.Underlying().(*types.Map); ok && v.Sort == SRef {
+			// elems m: the entries of a map may change
+			vs := u.sorts.sortOf(mt.Elem())
+			fr.frameMap(st, v.T, pos)
+			q := u.fresh("mapd", "(Array Str Bool)")
+			u.set(st, "MD_"+vs, store(u.get(st, "MD_"+vs), v.T, q))
+			qv := u.fresh("mapv", "(Array Str "+vs+")")
+			u.set(st, "MV_"+vs, store(u.get(st, "MV_"+vs), v.T, qv))
 			continue
 		}
 		if v.Sort != SSlice {
@@ -423,10 +465,11 @@ func (fr *Frame) builtin(st *State, b *ssa.Builtin, c *ssa.CallCommon, args []Va
 		return nil
 	case "copy":
 		dst, src := args[0], args[1]
-		n := u.def("copyn", SInt, "(ite (<= (slen "+dst.T+") (slen "+src.T+")) (slen "+dst.T+") (slen "+src.T+"))")
+		srcLen := "(slen " + src.T + ")"
 		if src.Sort == SStr {
-			n = u.fresh("copyn", SInt)
+			srcLen = u.strLen(src.T, true)
 		}
+		n := u.def("copyn", SInt, "(ite (<= (slen "+dst.T+") "+srcLen+") (slen "+dst.T+") "+srcLen+")")
 		if isByteSlice(c.Args[0].Type()) {
 			u.set(st, "BS", store(u.get(st, "BS"), "(sbase "+dst.T+")", u.fresh("bs", SStr)))
 		} else {
@@ -685,6 +728,12 @@ func (u *Unit) contractWrites(fc *FuncContract, ws map[string]bool, ptypes []typ
 			continue
 		}
 		if c, ok := a.(ECall); ok {
+			if c.Fun == "pointee" {
+				for _, s := range []string{SInt, SBool, SStr, SRef, SIface, SSlice, SReal} {
+					ws["H_"+s] = true
+				}
+				continue
+			}
 			if _, isG := u.P.CS.GhostMaps[c.Fun]; isG {
 				ws["GM_"+c.Fun] = true
 				continue
@@ -702,6 +751,11 @@ func (u *Unit) contractWrites(fc *FuncContract, ws map[string]bool, ptypes []typ
 	}
 	for _, el := range fc.Elems {
 		if t := u.staticType(el, vars); t != nil {
+			if mt, ok := t.Underlying().(*types.Map); ok {
+				ws["MD_"+u.sorts.sortOf(mt.Elem())] = true
+				ws["MV_"+u.sorts.sortOf(mt.Elem())] = true
+				continue
+			}
 			if isByteSlice(t) {
 				ws["BS"] = true
 			} else if sl, ok := t.Underlying().(*types.Slice); ok {
